@@ -227,7 +227,15 @@ func (i *Iterator) autoNext(ctx context.Context) bool {
 		return false
 	}
 	if endApprox.Lower.After(i.bounds.End) {
-		return i.Next(ctx, i.view.Start.Span(i.bounds.End))
+		rest := i.view.Start.Span(i.bounds.End)
+		if rest <= 0 {
+			// The view already lies at or past the end of the bounds (a seek may place
+			// it there). A non-positive span must not be handed to Next: -1 is AutoSpan
+			// and would recurse into this function without end.
+			i.reset(i.bounds.End.SpanRange(0))
+			return false
+		}
+		return i.Next(ctx, rest)
 	}
 	i.view.End = endApprox.Lower
 	i.reset(i.view.BoundBy(i.bounds))
@@ -287,7 +295,13 @@ func (i *Iterator) autoPrev(ctx context.Context) bool {
 		return false
 	}
 	if startApprox.Lower.Before(i.bounds.Start) {
-		return i.Prev(ctx, i.bounds.Start.Span(i.view.End))
+		rest := i.bounds.Start.Span(i.view.End)
+		if rest <= 0 {
+			// See autoNext: never hand a non-positive span (-1 is AutoSpan) to Prev.
+			i.reset(i.bounds.Start.SpanRange(0))
+			return false
+		}
+		return i.Prev(ctx, rest)
 	}
 	i.view.Start = startApprox.Lower + 1
 	i.reset(i.view.BoundBy(i.bounds))
